@@ -166,6 +166,16 @@ theorem C05_gsm7_refuses (pre post : List Nat) (c : Nat)
     (h1 : Gsm7.lookup C08.T.fwd c = none) (h2 : Gsm7.lookup C08.T.fwdEsc c = none) :
     Gsm7.encode C08.T (pre ++ c :: post) = none := C08.C08_encode_refuses pre post c h1 h2
 
+/-- **GSM 7-bit, packed**: text → septets → `Pack` → `Unpack` → septets → text gives the text back,
+    outside the two end-of-message situations in which packed octets do not determine the septet
+    count (the carve-out of the property, stated exactly) -/
+theorem C05_gsm7_packed_roundtrip (text s : List Nat) (h : Gsm7.encode C08.T text = some s)
+    (ha : Gsm7.endsInLostAt s = false)
+    (hcr : ¬ (s.length % 8 = 0 ∧ s.getLast? = some 0x0D)) :
+    Gsm7.decode C08.T (Gsm7.unpackGo (Gsm7.packGo s)) = some text := by
+  rw [Gsm7.unpackGo_packGo s (C08.C08_encode_range text s h) ha hcr]
+  exact C08.C08_encode_decode text s h
+
 /-! ### the protocol-level decoder selected by a data-coding number inverts the encoder -/
 
 /-- the decoder chosen for the number that goes on the wire is the inverse of the encoder chosen for
@@ -193,5 +203,6 @@ open SmsVerif.C05
 #print axioms C05_utf16_refuses
 #print axioms C05_gsm7_roundtrip
 #print axioms C05_gsm7_refuses
+#print axioms C05_gsm7_packed_roundtrip
 #print axioms C05_selection_pairs
 end
